@@ -107,12 +107,22 @@ func randBytesVal(r *vh.Rng, n int) vh.Val {
 }
 
 // genColumn draws a column of any supported (non-JSON) type with a value generator.
-func genColumn(r *vh.Rng, idx int) colDef {
+func genColumn(r *vh.Rng, idx int) colDef { return genColumnCase(r, idx, r.Intn(22)) }
+
+// column-type cases of genColumnCase per property
+var (
+	colCasesC10 = []int{0, 1, 2, 3, 4, 5, 6, 7, 8, 9, 10}
+	colCasesC11 = []int{11}
+	colCasesC12 = []int{12, 13, 14, 15}
+	colCasesC13 = []int{16, 17, 18, 19, 20, 21}
+)
+
+func genColumnCase(r *vh.Rng, idx int, kase int) colDef {
 	cd := colDef{nullable: r.Bool(), field: fmt.Sprintf("c%d_%x", idx, r.Intn(4096))}
 	if r.Chance(1, 10) {
 		cd.field = string(r.Bytes(1 + r.Intn(12)))
 	}
-	switch r.Intn(22) {
+	switch kase {
 	case 0, 1, 2, 3, 4:
 		it := intTypes[r.Intn(len(intTypes))]
 		cd.ty, cd.key, cd.uns = sym(it.name), it.name, r.Bool()
@@ -296,6 +306,14 @@ type tableDef struct {
 	db, name string
 	cols     []colDef
 	optional []byte
+}
+
+func genTableOf(r *vh.Rng, ncols int, c Cfg, cases []int) tableDef {
+	t := genTable(r, 0, c)
+	for i := 0; i < ncols; i++ {
+		t.cols = append(t.cols, genColumnCase(r, i, cases[r.Intn(len(cases))]))
+	}
+	return t
 }
 
 func genTable(r *vh.Rng, ncols int, c Cfg) tableDef {
